@@ -4,7 +4,7 @@
     [sreach] strong reachability.  [order_complete h]: the heap walk meets every object.  The premise
     [gc ... = Some _] says the model's fuel sufficed (None = out of fuel). *)
 From Coq Require Import ZArith List Bool PArith FMapPositive.
-From ChibiV Require Import C16.Model C16.Spec C16.Proofs C16.GcProofs C16.FdProofs C16.FdSafety C16.History C16.HistProofs C16.Examples C16.LayoutCheck Gen.C16_Layout.
+From ChibiV Require Import C16.Model C16.Spec C16.Proofs C16.GcProofs C16.FdProofs C16.FdSafety C16.History C16.HistProofs C16.FdOnce C16.Fuel C16.Examples C16.LayoutCheck Gen.C16_Layout.
 Import ListNotations.
 
 (** the mark phase + ephemeron fixpoint mark exactly the SPEC's live set *)
@@ -161,6 +161,27 @@ Theorem history_fd_closed_by_first_collection : forall ops n fl st h' log' m f f
   In fd log' /\ (forall x, In x (oslog st) -> In x log').
 Proof. exact history_fd_closed_by_first_collection_l. Qed.
 Print Assumptions history_fd_closed_by_first_collection.
+
+(** released at most once, over all interleavings of explicit close and gc: the log of close() calls of any
+    history has no duplicates (descriptors are named by instance); a descriptor whose owner (fileno object or
+    stream port) is still open and closable has not been closed; every descriptor has a single owner *)
+Theorem history_fd_closed_at_most_once : forall ops n fl st,
+  run ops (init n fl) = Some st ->
+  NoDup (oslog st) /\
+  (forall a x, open_owner (objs (hp st)) a x -> ~ In x (oslog st)) /\
+  (forall a b x, owns (objs (hp st)) a x -> owns (objs (hp st)) b x -> a = b).
+Proof. exact history_fd_closed_at_most_once_l. Qed.
+Print Assumptions history_fd_closed_at_most_once.
+
+(** the premise [gc ... = Some _] is satisfiable for every heap: with fuel above (roots + one unit per object and per
+    strong slot) and passes above the number of objects the model's collector always returns (this is the fuel the
+    drivers pass); together with history_invariants: at any point of any history *)
+Theorem gc_fuel_suffices : forall fuel passes h roots log,
+  order_complete h -> NoDup (order h) ->
+  (length roots + total_size h + 1 < fuel)%nat -> (length (order h) < passes)%nat ->
+  exists r, gc fuel passes h roots log = Some r.
+Proof. exact gc_fuel_suffices_l. Qed.
+Print Assumptions gc_fuel_suffices.
 
 (** F-C16-1: the collector as pinned (no ephemeron fixpoint, [gc_pinned]) violates value_retained_while_key_live:
     a live ephemeron with a live key still points at its value after the collection and the value has been swept.
